@@ -86,8 +86,8 @@ mut("numpy_reduce_sum_fieldwise_rho", "src/vector/backends/numpy.py", '    field
 mut("awkward_count_nonzero_ignores_z", "src/vector/backends/awkward.py", "    if isinstance(array, Spatial):\n        is_nonzero = numpy.logical_or(is_nonzero, array.z != 0)\n    if isinstance(array, Lorentz):\n        is_nonzero = numpy.logical_or(is_nonzero, array.t2 != 0)\n\n    return ak.count_nonzero(is_nonzero, axis=1)",
     "    if isinstance(array, Lorentz):\n        is_nonzero = numpy.logical_or(is_nonzero, array.t2 != 0)\n\n    return ak.count_nonzero(is_nonzero, axis=1)", ["C17"], "ak.count_nonzero ignores the longitudinal component")
 mut("awkward_reduce_sum_loses_flavor", "src/vector/backends/awkward.py", '        with_name=layout.purelist_parameter("__record__"),', '        with_name=layout.purelist_parameter("__record__").replace("Momentum", "Vector"),', ["C17"], "ak.sum of a momentum array returns a generic vector")
-mut("awkward_wrap_drops_extra_4d", "src/vector/backends/awkward.py", '                        "energy",\n                    ):\n                        names.append(name)\n                        arrays.append(self[name])\n\n            return maybe_record(\n                ak.zip(\n                    dict(zip(names, arrays)),\n                    depth_limit=first.layout.purelist_depth,\n                    with_name=_class_to_name(cls.ProjectionClass4D),',
-    '                        "energy",\n                        "charge",\n                    ):\n                        names.append(name)\n                        arrays.append(self[name])\n\n            return maybe_record(\n                ak.zip(\n                    dict(zip(names, arrays)),\n                    depth_limit=first.layout.purelist_depth,\n                    with_name=_class_to_name(cls.ProjectionClass4D),', ["C18"], "4D vector-valued results drop a field named charge")
+mut("awkward_wrap_drops_extra_4d", "src/vector/backends/awkward.py", '                        _azimuthal_fields + _longitudinal_fields + _temporal_fields\n                    ):\n                        names.append(name)\n                        arrays.append(self[name])\n\n            return maybe_record(\n                ak.zip(\n                    dict(zip(names, arrays)),\n                    depth_limit=first.layout.purelist_depth,\n                    with_name=_class_to_name(cls.ProjectionClass4D),',
+    '                        _azimuthal_fields + _longitudinal_fields + _temporal_fields + ("charge",)\n                    ):\n                        names.append(name)\n                        arrays.append(self[name])\n\n            return maybe_record(\n                ak.zip(\n                    dict(zip(names, arrays)),\n                    depth_limit=first.layout.purelist_depth,\n                    with_name=_class_to_name(cls.ProjectionClass4D),', ["C18"], "4D vector-valued results drop a field named charge")
 mut("awkward_wrap_depth_limit_off_by_one", "src/vector/backends/awkward.py", "                    depth_limit=first.layout.purelist_depth,\n                    with_name=_class_to_name(cls.ProjectionClass3D),", "                    depth_limit=max(1, first.layout.purelist_depth - 1),\n                    with_name=_class_to_name(cls.ProjectionClass3D),", ["C18", "C03"], "3D results are zipped one level too shallow (records of lists instead of lists of records)")
 
 # --- NumPy arrays as arrays of vectors (C19) ----------------------------------------------------------------------------
